@@ -37,6 +37,7 @@ Method(m, recv, arg, W) ==
   CASE m = "n_ge"     -> BoolV(NumOf(W.objs[recv.v].f.n) >= arg.v)
     [] m = "n_plus"   -> IntV(NumOf(W.objs[recv.v].f.n) + arg.v)
     [] m = "is_small" -> BoolV(NumOf(W.objs[recv.v].f.n) < 2)
+    [] m = "items_copy" -> W.objs[recv.v].f.items
     [] m = "startswith" -> BoolV(IsPrefixSeq(arg.v, recv.v))
     [] m = "count"    -> IntV(Cardinality({i \in 1..Len(recv.v) : PyEq(recv.v[i], arg)}))
 
